@@ -19,7 +19,7 @@ def correspond(ctx, C):
     if ctx.search:
         n *= 3
     try:
-        rows = C.run_family("rexp", n, ctx.seed, ctx.tier, replay=S.replay_file(ctx, C), race=True)
+        rows = C.run_family("rexp", n, ctx.seed, ctx.tier, replay=S.replay_file(ctx, C), race=True, timeout=3600 if ctx.tier == "quick" else 14400)
     except C.HarnessCrash as e:
         # the process died (fatal runtime error such as "concurrent map read and map write" cannot be recovered): the case it
         # was running is the failing input
